@@ -27,6 +27,7 @@ ASSUMPTIONS = ['formula transcriptions follow the docstrings of deriv / second_d
                'every fluctuation; the slice of an odd-T cosh correlator whose ratio is identically 1 is not compared',
                'expected entries are formed with pyerrors scalar arithmetic (C01)']
 EXHAUSTIVE = True
+REPEAT = 2      # every case is evaluated twice in the same process: the second verdict must equal the first (call-history oracle)
 CHUNK = 1
 M0 = 0.35
 
